@@ -148,6 +148,9 @@ type planted struct {
 	column string // header of its column
 	keep   keepFn // which bytes of the cell belong to this value (nil: all but '*' and blank)
 	isName bool
+	// between: the value is what stands between these two literals of the cell (used when the value's alphabet
+	// overlaps the rest of the cell, so that `keep` cannot tell it apart)
+	between [2]string
 }
 
 // alphabets
@@ -416,10 +419,18 @@ func plant(r *gen.Rand, f *ach.File, cnt counters) []planted {
 				case ach.ENR:
 					ps = append(ps, plantENR(r, a, cnt, a05Idx)...)
 				case ach.DNE:
-					l, st := cnt.next("dne-ssn", 11, nNumStyles)
-					ssn := numMarker(r, l, st, alphaSSN)
-					a.PaymentRelatedInformation = `DATE OF DEATH*010100*CUSTOMER SSN*` + ssn + `*AMOUNT*1.00\`
-					ps = append(ps, planted{site: "dne-ssn", cls: clsAccount, value: ssn, row: rowA05, idx: a05Idx, column: "PaymentRelatedInformation", keep: alphaSSN.keep()})
+					if r.Chance(1, 3) {
+						// an SSN value that also occurs earlier in the text (in the date of death or in a label)
+						ssn := gen.Pick(r, []string{"6211", "0621", "62119", "062119", "19", "211", "DEATH", "DATE", "SSN", "OF", "CUSTOMER", "1", "0"})
+						a.PaymentRelatedInformation = `DATE OF DEATH*062119*CUSTOMER SSN*` + ssn + `*AMOUNT*1.00\`
+						ps = append(ps, planted{site: "dne-ssn-overlapping", cls: clsAccount, value: ssn, row: rowA05, idx: a05Idx, column: "PaymentRelatedInformation",
+							between: [2]string{"CUSTOMER SSN*", "*AMOUNT*"}})
+					} else {
+						l, st := cnt.next("dne-ssn", 11, nNumStyles)
+						ssn := numMarker(r, l, st, alphaSSN)
+						a.PaymentRelatedInformation = `DATE OF DEATH*010100*CUSTOMER SSN*` + ssn + `*AMOUNT*1.00\`
+						ps = append(ps, planted{site: "dne-ssn", cls: clsAccount, value: ssn, row: rowA05, idx: a05Idx, column: "PaymentRelatedInformation", keep: alphaSSN.keep()})
+					}
 				}
 				a05Idx++
 			}
@@ -581,6 +592,19 @@ func checkPlanted(t *T, f *ach.File, p planted, rows map[int][]tableRow, out, pl
 		cell, located = cellOf(rs[p.idx], p.column)
 	}
 	var fd *finding
+	if located && p.between[0] != "" {
+		// the value's own field, cut out by its neighbours; if they are gone, the value between separators
+		i, j := strings.Index(cell, p.between[0]), strings.LastIndex(cell, p.between[1])
+		if i >= 0 && j >= i+len(p.between[0]) {
+			fd = checkNumber(cell[i+len(p.between[0]):j], p.value, nil)
+		} else if strings.Contains(cell, "*"+p.value+"*") {
+			fd = &finding{"complete-value-shown", numberShape(p.value), "the complete value must not appear"}
+		}
+		if fd != nil {
+			t.Fail("C20/"+p.site+"/"+fd.check+"/"+fd.shape, "describe.File with "+flagsOf(combo)+" shows protected data of "+p.site, input(cell), fmt.Sprintf("%q", cell), fd.required)
+		}
+		return
+	}
 	if located {
 		if p.isName {
 			if p.keep != nil {
